@@ -13,6 +13,7 @@ Inductive pcase :=
 | PCInts (v : gval) (r : pimpl (list Z))                                       (* parser.ParseIntergers(v, true) *)
 | PCNumber (v : gval) (r : pimpl Z)                                            (* parser.ParseIntegerNumber(v, true) *)
 | PCRange (op : vop) (v : gval) (r : pimpl (Z * Z))                            (* rangeholder.ParseRange(op, v, true): left, right *)
+| PCIntsNF (v : gval) (r : pimpl (list Z))                                     (* parser.ParseIntergers(v, false): the in / not-in lists of a range holder with EnableFloat2Int = false *)
 | PCRangeNF (op : vop) (v : gval) (r : pimpl (Z * Z))                          (* rangeholder.ParseRange(op, v, false): a holder configured with EnableFloat2Int = false *)
 | PCNil (v : gval) (r : pimpl bool)                                            (* util.NilInterface *)
 | PCAcDict (v : gval) (r : pimpl (list text))                                  (* ahoholder.ParseAcMatchDict *)
@@ -112,6 +113,12 @@ Definition spec_verdict (c : pcase) : bool * bool * N :=
     | PIOk (l, rr) => (match denote_range op v with
                        | Some (el, er) => (l =? el) && ((rr =? er) || ((er =? two63) && (rr =? two63 - 1)))
                        | None => false end, true, 36%N)
+    end
+  | PCIntsNF v r =>
+    (* without float-to-integer conversion a float, alone or as an element of a typed or untyped list, is refused *)
+    match v with
+    | VFloat _ _ | VSlice _ _ (VFloat _ _ :: _) | VList _ (VFloat _ _ :: _) => (match r with PIErr => true | _ => false end, true, 38%N)
+    | _ => (pimpl_total r, true, 30%N)
     end
   | PCRangeNF op v r =>
     (* without float-to-integer conversion a float operand of > or < is no integer: refused, not truncated *)
